@@ -146,6 +146,14 @@ def prove(ctx):
         else:
             ctx.axioms[n] = a
             ctx.discharged.append(n)
+    if ctx.thorough and os.environ.get("VERIF_NO_COQCHK") != "1":
+        # independent re-check of the compiled property file and everything it depends on
+        rc, out = core.sh("timeout 3000 coqchk -silent -o -Q . MowCli MowCli.P%s" % ctx.prop, cwd=COQ, check=False)
+        m = re.search(r"\* Axioms:(.*?)\n\s*\n", out, flags=re.S)
+        axs = (m.group(1).strip() if m else "?")
+        ctx.notes.append("coqchk: rc=%d axioms=%s" % (rc, " ".join(axs.split())))
+        if rc != 0 or axs != "<none>":
+            ctx.violation("proof", "coqchk does not accept P%s.vo without axioms: %s" % (ctx.prop, out[-1500:]))
     return True
 
 
